@@ -18,6 +18,14 @@ Theorem C06_rejects_with_SecondaryStructureError : forall brk ign s,
 Proof. exact mpt_rejects_with_sse. Qed.
 Print Assumptions C06_rejects_with_SecondaryStructureError.
 
+(* the table has the shape of the structure: one row per strand (str.split at the
+   break character), one entry per position *)
+Theorem C06_table_shape : forall brk ign s t,
+  make_pair_table brk ign s = Ok t ->
+  map (@length _) t = map (@length _) (make_strand_table_str brk s).
+Proof. exact mpt_shape. Qed.
+Print Assumptions C06_table_shape.
+
 (* the pairing of the returned table is a symmetric involution without fixpoints *)
 Theorem C06_pairing_symmetric : forall brk ign s t a b,
   make_pair_table brk ign s = Ok t ->
